@@ -67,7 +67,7 @@ func judgePersisted(sc updsim.Scenario, out *playOut) kit.Result {
 		r.Key = res.Key
 		return r
 	}
-	if a := updsim.CheckPersisted(log, w.All, updsim.InitialStore(sc.World, log), w.Trace, w.Owed); a != nil {
+	if a := updsim.CheckPersisted(log, w.All, updsim.InitialStore(sc.World, log), w.Trace, func(e updsim.Entry) bool { return e.Count > 0 && w.Owed(e) }); a != nil {
 		class := "persisted-ahead:" + a.Entry.Class() + "-" + servedBefore(w, a)
 		if sc.World.IsUntracked(a.Entry.Chan) {
 			class = "persisted-ahead:update-of-newly-seen-channel"
@@ -163,6 +163,10 @@ func judgeCrash(cw crashW) kit.Result {
 	// had already persisted a position for it, and only after the first contact
 	contact := updsim.FirstContact(sc.World, log, sc.Hist)
 	owed := func(e updsim.Entry) bool {
+		if e.Count == 0 {
+			// zero-count updates occupy no position: a saved pts neither covers nor exposes them
+			return false
+		}
 		if e.Chan == 0 || !sc.World.IsUntracked(e.Chan) {
 			return true
 		}
@@ -314,6 +318,24 @@ func plans(thorough bool) []worldPlan {
 		add(cat([]string{"msg", "cmsg"}, ch), depth, func(c *updsim.WorldCfg) { c.Untracked = []int{2}; c.Server.ChanSlice = 1 })
 	}
 	add([]string{"cmsg@2", "cmsg@3", "cdel@3"}, depth, func(c *updsim.WorldCfg) { c.Untracked = []int{2, 3} })
+	// envelopes carrying several entries (also zero-count ones) in any order, for tracked and
+	// newly seen channels and for the common sequences
+	conts := [][]string{{"cmsg@2", "cread@2"}, {"cmsg@2", "cread@2", "cmsg@2"}, {"cmsg@2", "cdel@2"}, {"cmsg", "cread"}, {"cmsg", "cread", "cmsg"}, {"msg", "web"}, {"msg", "web", "msg"}, {"msg", "del", "enc"}, {"msg", "cmsg@2", "cread@2"}}
+	if thorough {
+		conts = append(conts, []string{"cmsg@2", "cread@2", "cmsg@2", "cweb@2"}, []string{"cmsg", "cmsg@2", "cread@2", "cdel@2"}, []string{"msg", "web", "del", "enc"})
+	}
+	for _, log := range conts {
+		k := 3
+		if len(log) > 3 {
+			k = 2
+		}
+		add(log, depth-1, func(c *updsim.WorldCfg) { c.Containers = k; c.Untracked = []int{2} })
+	}
+	// zero-count updates pushed one by one / carried in differences
+	for _, log := range [][]string{{"cmsg", "cread", "cmsg"}, {"msg", "web", "msg"}, {"cmsg@2", "cread@2", "cmsg@2"}} {
+		add(log, depth, func(c *updsim.WorldCfg) { c.Untracked = []int{2} })
+		add(log, depth, func(c *updsim.WorldCfg) { c.Untracked = []int{2}; c.Server.Slice, c.Server.ChanSlice = 2, 2 })
+	}
 	add([]string{"cmsg", "cedit"}, depth, nil)
 	add([]string{"msg", "del", "enc", "cmsg", "cdel"}, depth, nil)
 	add([]string{"cmsg", "cmsg@2", "cdel@2"}, depth, nil)
@@ -338,6 +360,7 @@ func main() {
 		c.Rule("Worlds and histories as in C02 (reference server log, BFS over pushes in any order/repetition/omission + timers, each of 3 recoveries from every reachable state), plus worlds whose server answers differenceTooLong / channelDifferenceTooLong, plus worlds with channels that are neither tracked nor in the storage when the client starts (access hash known): their first pushed update takes internalState.handleChannel's create path (main loop persists the start position, creates the channelState and starts its worker; the worker's real goroutine is parked in its subscribe call by the fake server and the harness performs the subscribe difference and the queue steps itself), so crash points lie between the main loop's write and the worker's first delivery. Entries of such a channel are owed to the handler from the position before its first pushed entry on (and, after a crash, only if a position for it had been persisted). " +
 			"Family persisted (a): every scenario's merged trace of StateStorage writes, Handler.Handle calls and too-long callbacks; oracle on EVERY prefix: no log entry whose end position is <= the saved pts/qts/channel pts of its sequence is still undelivered unless the too-long callback of that sequence was called earlier. " +
 			"Family crash-restart (b): for every scenario that ends with a recovery, a crash after each k = 0..len(trace) trace elements (every call boundary of the two interfaces): storage snapshot at k -> new engine through the real loadState/loadChannels -> start-up difference + channel subscriptions + all timers to a fixpoint against the complete log; oracle: every log entry was handed to the handler before the crash or in the second run, or its sequence was reported too long. " +
+			"Further worlds push envelopes that carry 2-3 log entries in every order (tracked channels, newly seen channels, common sequences) and contain zero-count updates (cread/cweb/web); the first contact of a newly seen channel is the earliest range start in the first envelope that carries it. Zero-count entries occupy no position, so a saved pts neither covers nor exposes them: they take part in the histories but are not themselves demanded by (a)/(b). " +
 			"A case = scenario (+ crash point); distinct = distinct cases; the root scenario of a world is trivial.")
 		c.Assume("the StateStorage used is a plain map implementation of the interface contract (SetState does not touch channel pts); crash = the process stops between two calls, the storage keeps exactly the completed writes")
 		c.Assume("engine driven on one thread through in-package step functions (see C02); restart results are memoised per (world, storage snapshot), which is sound because the second run is a deterministic function of those")
